@@ -57,7 +57,7 @@ def _has_sig(rec, prop, sig):
     return any(v["prop"] == prop and v["sig"] == sig for v in rec.get("violations", []))
 
 
-def minimise(pool, sched, prop, sig, at_seq, budget_s=150, max_cand=60, verbose=False):
+def minimise(pool, sched, prop, sig, at_seq, budget_s=150, max_cand=60, verbose=False, hashseed="0"):
     """ddmin over the event list; a candidate is accepted only if the same signature recurs."""
     t0 = time.time()
     events = [e for e in sched["events"] if e["seq"] <= at_seq]
@@ -68,6 +68,7 @@ def minimise(pool, sched, prop, sig, at_seq, budget_s=150, max_cand=60, verbose=
         futs = {}
         for idx, c in enumerate(cands):
             s = dict(sched)
+            s["hashseed"] = hashseed
             s["events"] = _renumber(c)
             futs[pool.submit(runner.run_seed, ("sched", s))] = idx
         res = {}
@@ -127,7 +128,8 @@ def write_replay(prop, sig, rec, sched, events, tried, reproduced, n):
     doc = {
         "property": prop, "signature": sig, "seed": rec.get("seed"), "mode": sched.get("mode"),
         "tree_hash": env.tree_hash(), "backend": sched.get("backend", "objsim"),
-        "workers": [{"hashseed": 0, "threads": 1, "tz": None, "import_order": "opendsm-first",
+        "hashseed": rec.get("hashseed", "0"),
+        "workers": [{"hashseed": rec.get("hashseed", "0"), "threads": 1, "tz": None, "import_order": "opendsm-first",
                      "numba": "warm-shared", "start": "fork-from-warm-zygote"}],
         "events": events,
         "expect": {"detail": v["detail"] if v else None},
@@ -154,7 +156,8 @@ def replay_file(path, prop=None):
 
         rec = fleet.run_fleet(doc)
     else:
-        p = subprocess.run([env.PY, "-W", "ignore", "-c", code, path], cwd=env.VERIF, env=env.child_env(),
+        p = subprocess.run([env.PY, "-W", "ignore", "-c", code, path], cwd=env.VERIF,
+                           env=env.child_env(hashseed=str(doc.get("hashseed", "0"))),
                            capture_output=True, text=True, timeout=runner.RUN_TIMEOUT + 120)
         line = next((l for l in p.stdout.splitlines() if l.startswith("@@")), None)
         if line is None:
@@ -281,7 +284,8 @@ def check(a, n_runs, n_fleet):
                 events, tried, rep = sched["events"], 0, True
             else:
                 events, tried, rep = minimise(pool, sched, prop, s, v["seq"],
-                                              budget_s=150 if a.tier == "quick" else 400)
+                                              budget_s=100 if a.tier == "quick" else 400,
+                                              hashseed=rec.get("hashseed", "0"))
             path = write_replay(prop, s, rec, sched, events, tried, rep, n)
             ok, _r = replay_file(path, prop)
             viol_lines.append((s, path, ok))
